@@ -103,7 +103,7 @@ def run_property(prop, tier, seed, only=None, jobs=None):
     return meta, results, time.time() - t0
 
 
-def summarize(prop, tier, seed, meta, results, wall, quiet=False):
+def summarize(prop, tier, seed, meta, results, wall, quiet=False, census=True):
     known = _load_json(os.path.join(VERIF, 'known_findings.json'), {'findings': []})['findings']
     baseline = _load_json(os.path.join(VERIF, 'baseline_obligations.json'), {}).get(prop, None)
     os.makedirs(os.path.join(OUT, 'replays'), exist_ok=True)
@@ -199,7 +199,7 @@ def summarize(prop, tier, seed, meta, results, wall, quiet=False):
                 if not any(v[0] == oname for v in violations):
                     violations.append((oname, rep, ''))
     # census
-    if baseline is not None:
+    if baseline is not None and census:
         missing = [n for n in baseline.get('discharged', []) + baseline.get('bounded', []) if n not in all_names]
         if missing and not undecided and not broken:
             undecided.append("census: %d obligations of the committed baseline were not generated: %s"
@@ -306,7 +306,7 @@ def main(argv=None):
         return replay_file(a.prop, a.replay)
     try:
         meta, results, wall = run_property(a.prop, a.tier, seed, a.only, a.jobs)
-        code, ev, names = summarize(a.prop, a.tier, seed, meta, results, wall)
+        code, ev, names = summarize(a.prop, a.tier, seed, meta, results, wall, census=not a.write_baseline)
     except Exception:
         traceback.print_exc()
         print("BROKEN: checker crashed")
